@@ -224,7 +224,7 @@ Record go_endpoint_Endpoint := { go_endpoint_Endpoint_Host : (list N);
   go_endpoint_Endpoint_SetId : (list N);
   go_endpoint_Endpoint_Key : (list N) }.
 
-(* tars/selector/selector.go: func BuildStaticWeightList, statements "var maxRange, totalWeight int" .. "if minWeight > 0 {" *)
+(* tars/selector/selector.go: func BuildStaticWeightList, statements "^" .. "if minWeight > 0 {" *)
 Definition tr_BSWL_range (endpoints : (list go_endpoint_Endpoint)) : ctl (Z * Z * Z * Z) (list Z) :=
   let maxRange : Z := 0 in let totalWeight : Z := 0 in
     let '(minWeight, maxWeight) := (k_math_MaxInt32, k_math_MinInt32) in
@@ -297,7 +297,7 @@ Definition tr_Endpoint2tars (end_ : go_endpoint_Endpoint) : ctl unit go_endpoint
       go_endpointf_EndpointF_AuthType := (go_endpoint_Endpoint_AuthType end_) |}.
 
 Definition k_endpoint_UDP : Z := 0.
-(* tars/util/endpoint/convert.go: func Tars2endpoint, statements "proto := \"tcp\"" .. "e := Endpoint{" *)
+(* tars/util/endpoint/convert.go: func Tars2endpoint, statements "^" .. "e := Endpoint{" *)
 Definition tr_Tars2endpoint_build (end_ : go_endpointf_EndpointF) : ctl go_endpoint_Endpoint go_endpoint_Endpoint :=
   let proto := (116%N :: (99%N :: (112%N :: (@nil N)))) in
     bindc (if ((go_endpointf_EndpointF_Istcp end_) =? k_endpoint_UDP)
